@@ -188,6 +188,7 @@ func cacheViolations(p *Program, eff *Effects, fns []*ssa.Function) (*cacheInfo,
 				}
 			}
 		}
+		hits = append(hits, publishedThenWritten(p, eff, fn, ci)...)
 		for _, b := range fn.Blocks {
 			for _, in := range b.Instrs {
 				switch x := in.(type) {
@@ -383,4 +384,106 @@ func globalLeaks(p *Program, fns []*ssa.Function) (int, []Finding) {
 		}
 	}
 	return n, hits
+}
+
+// publishedThenWritten: an object handed to Store / LoadOrStore of a package-level cache is
+// complete at that point — the function does not write through it afterwards (another goroutine
+// may already have loaded it).
+func publishedThenWritten(p *Program, eff *Effects, fn *ssa.Function, ci *cacheInfo) []Finding {
+	var hits []Finding
+	for _, b := range fn.Blocks {
+		for _, in := range b.Instrs {
+			pub, ok := in.(*ssa.Call)
+			if !ok {
+				continue
+			}
+			cl := calleeOf(&pub.Call)
+			if !(cl.Pkg == "sync" && cl.Recv == "Map" && (cl.Name == "Store" || cl.Name == "LoadOrStore") && len(pub.Call.Args) == 3) {
+				continue
+			}
+			if g, ok := pub.Call.Args[0].(*ssa.Global); !ok || !ci.globals[g] {
+				continue
+			}
+			pv := pub.Call.Args[2]
+			if mi, ok := pv.(*ssa.MakeInterface); ok {
+				pv = mi.X
+			}
+			if !reachesPointerAny(pv.Type()) {
+				continue
+			}
+			derived := map[ssa.Value]bool{pv: true}
+			for changed := true; changed; {
+				changed = false
+				for _, bb := range fn.Blocks {
+					for _, i2 := range bb.Instrs {
+						v, isVal := i2.(ssa.Value)
+						if !isVal || derived[v] {
+							continue
+						}
+						var src ssa.Value
+						switch x := i2.(type) {
+						case *ssa.IndexAddr:
+							src = x.X
+						case *ssa.FieldAddr:
+							src = x.X
+						case *ssa.Slice:
+							src = x.X
+						case *ssa.ChangeType:
+							src = x.X
+						}
+						if src != nil && derived[src] {
+							derived[v] = true
+							changed = true
+						}
+					}
+				}
+			}
+			for _, bb := range fn.Blocks {
+				for _, i2 := range bb.Instrs {
+					if i2 == ssa.Instruction(pub) || !instrMayPrecede(fn, pub, i2) {
+						continue
+					}
+					what := ""
+					switch x := i2.(type) {
+					case *ssa.Store:
+						if derived[x.Addr] {
+							what = "a store"
+						}
+					case ssa.CallInstruction:
+						com := x.Common()
+						if bi, ok := com.Value.(*ssa.Builtin); ok {
+							if bi.Name() == "copy" && derived[com.Args[0]] {
+								what = "copy"
+							}
+							continue
+						}
+						callee := com.StaticCallee()
+						if callee == nil {
+							continue
+						}
+						var cs *Summary
+						if callee.Blocks == nil || !strings.HasPrefix(fnPkgPath(callee), modPath) {
+							cs = eff.externalSummary(callee, Callee{Pkg: fnPkgPath(callee), Name: callee.Name()})
+						} else {
+							cs = eff.Summary(callee)
+						}
+						for i, a := range com.Args {
+							if derived[a] && cs != nil && len(cs.WritesRoot(i)) > 0 {
+								what = "the call of " + callee.Name()
+							}
+						}
+					}
+					if bi, ok := i2.(*ssa.Call); ok && what == "" {
+						if b2, ok := bi.Call.Value.(*ssa.Builtin); ok && b2.Name() == "copy" && derived[bi.Call.Args[0]] {
+							what = "copy"
+						}
+					}
+					if what != "" {
+						hits = append(hits, Finding{fn, i2.Pos(), "published-object-complete", fmt.Sprintf("%s: the object handed to %s of a package-level cache is written afterwards (%s): a goroutine that loads the entry in between reads a half-built value", funcKey(fn), cl.Name, what)})
+					}
+				}
+			}
+		}
+	}
+	return hits
 }
